@@ -436,6 +436,21 @@ pub fn boundary_shapes(rng: &mut Rng) -> Vec<Prob> {
             b: vec![-q, 0.0, 0.0, -r, 10.0], cones: vec![SecondOrderConeT(3), NonnegativeConeT(2)],
             label: format!("SOC with zero vector part p={} q={} r={}", pp, q, r), intent: 0 });
     }
+    // infinite bounds (presolve removes them) in several, non-adjacent nonnegative cones, in a
+    // whole cone, and in cones where they must be kept
+    {
+        let inf = 1e30;
+        let mk = |cones: Vec<SupportedConeT<f64>>, b: Vec<f64>, label: &str| {
+            let m = b.len();
+            let rows: Vec<Vec<f64>> = (0..m).map(|i| vec![if i % 2 == 0 { 1.0 } else { -1.0 }, if i % 3 == 0 { 1.0 } else { 0.5 }]).collect();
+            Prob { P: CscMatrix::identity(2), q: vec![1.0, -1.0], A: dense_to_csc(&rows, m, 2), b, cones, label: label.to_string(), intent: 3 }
+        };
+        out.push(mk(vec![NonnegativeConeT(2), ZeroConeT(1), NonnegativeConeT(2)], vec![1.0, inf, 0.5, 1.0, inf], "inf bounds in two NN cones around a zero cone"));
+        out.push(mk(vec![NonnegativeConeT(3), SecondOrderConeT(3), NonnegativeConeT(2), NonnegativeConeT(1)], vec![inf, 1.0, inf, 2.0, 0.0, 0.0, inf, 1.0, 1.0], "inf bounds in three NN cones, SOC between"));
+        out.push(mk(vec![NonnegativeConeT(2), ZeroConeT(1), NonnegativeConeT(2)], vec![inf, inf, 0.5, 1.0, 2.0], "a whole NN cone infinite, the later one finite"));
+        out.push(mk(vec![SecondOrderConeT(3), NonnegativeConeT(2)], vec![inf, 0.0, 0.0, 1.0, inf], "inf bound inside a SOC (kept) and in a NN cone (dropped)"));
+        out.push(mk(vec![NonnegativeConeT(4)], vec![inf, inf, inf, inf], "every constraint infinite"));
+    }
     // many cones of one kind (the header elides long lists)
     {
         let cones: Vec<SupportedConeT<f64>> = vec![2usize, 3, 2, 4, 3, 4, 5, 2, 3].into_iter().map(SecondOrderConeT).collect();
